@@ -43,7 +43,8 @@ func sectionHullRace() {
 		runForgetRace(sec, nb)
 	}
 	for _, n := range []int{250, 300} {
-		runReorderRace(sec, n)
+		runReorderRace(sec, n, false)
+		runReorderRace(sec, n, true)
 		runLightFillFailure(sec, n)
 	}
 	res.Done(sec)
@@ -151,7 +152,7 @@ func runDropRace(sec *vh.Section, nb int) {
 	verifhook.Set("partition.tmirebuilder.beforeServe", nil)
 	time.Sleep(5 * time.Millisecond)
 	r.waitIdle()
-	r.ask("rw.rebuild all", func(string) {})
+	r.ask("rw.rebuild all", r.linkCheck())
 	r.schedFinding = ""
 	r.doQuery(op{Kind: "query", Lo: lo, Hi: hi}, false) // after the background rebuild: everything is back
 	r.doQuery(op{Kind: "query", Hi: i64p(150)}, false)
@@ -373,7 +374,7 @@ func runForgetRace(sec *vh.Section, nb int) {
 		close(gateReb)
 		return
 	}
-	r.ask("rw.write "+modelSpec(cts), func(string) {})
+	r.ask("rw.write "+modelSpec(cts), r.linkCheck())
 	r.schedFinding = "F53"
 	r.doQuery(op{Kind: "query", Lo: i64p(1000), Hi: i64p(1000 + int64(nb))}, false) // B's events: hidden behind C's hull
 	r.doQuery(op{Kind: "query", Lo: i64p(900), Hi: i64p(1999)}, false)
@@ -382,7 +383,7 @@ func runForgetRace(sec *vh.Section, nb int) {
 	verifhook.Set("partition.tmirebuilder.beforeServe", nil)
 	time.Sleep(5 * time.Millisecond)
 	r.waitIdle()
-	r.ask("rw.autorebuild", func(string) {})
+	r.ask("rw.autorebuild", r.linkCheck())
 	r.schedFinding = ""
 	r.doQuery(op{Kind: "query", Lo: i64p(1000), Hi: i64p(1000 + int64(nb))}, false) // after the background rebuild: back
 	r.doQuery(op{Kind: "query", Lo: i64p(900), Hi: i64p(1999)}, false)
@@ -402,7 +403,7 @@ func runForgetRace(sec *vh.Section, nb int) {
 // record, so the last index point says "timestamp C.max at position B.last" and drops C's own point; lastRec and Recs go DOWN.
 // While count > Recs the window stays open (a7caf30); after the next write Recs is exact again and GetPosForLessTime cuts the
 // window at B's last record for every upper bound below C's maximum: C's in-range records are hidden (monotone data).
-func runReorderRace(sec *vh.Section, n int) {
+func runReorderRace(sec *vh.Section, n int, rebuildBetween bool) {
 	dir := lrsrv.NewDir()
 	defer os.RemoveAll(dir)
 	srv, err := lrsrv.Start(dir, lrsrv.Opts{MaxChunkSize: 250000, NoRPC: true})
@@ -460,6 +461,15 @@ func runReorderRace(sec *vh.Section, n int) {
 		<-doneW
 		return
 	}
+	if rebuildBetween {
+		// variant: the chunk's index is rebuilt (forced, synchronous) from all confirmed records — A, B, C — while B's
+		// notification is still on the way; the rebuild resets lastRec to 0
+		for _, c := range r.chunks() {
+			r.srv.TsIdx.RebuildIndex(r.ctx, r.src, c, true)
+		}
+		r.ask("rw.rebuild all", func(string) {})
+		r.schedFinding = "F-C02-901"
+	}
 	close(gate) // B's notification arrives late
 	<-doneW
 	r.ask("rw.notify", func(string) {})
@@ -471,7 +481,9 @@ func runReorderRace(sec *vh.Section, n int) {
 	if !r.doWrite(op{Kind: "write", Segs: []seg{{T: 3000, N: n, D: 1}}}, rng) {
 		return
 	}
-	r.schedFinding = "F85"
+	if !rebuildBetween {
+		r.schedFinding = "F85"
+	}
 	r.doQuery(op{Kind: "query", Lo: i64p(2000), Hi: i64p(2010)}, false)
 	r.doQuery(op{Kind: "query", Hi: i64p(2050)}, false)
 	r.doQuery(op{Kind: "query", Lo: i64p(1990), Hi: i64p(2100), Page: 97}, false)
